@@ -508,3 +508,11 @@ def realpath(ctx, sigma, p):
                             "(the POSIX leading '//' spelling is not considered)")
         ctx.assume(z3.And(z3.PrefixOf(SLASH, r), clean_path(r)))
     return r
+
+
+# re.escape(s): an opaque "literal pattern for s"; re.sub('^' + re.escape(x),
+# repl, t) is then prefix replacement (pyvc/libmodels.py: lib_re_sub)
+re_escape_f = z3.Function('re_escape', z3.StringSort(), z3.StringSort())
+re_valid_f = z3.Function('re_valid', z3.StringSort(), z3.BoolSort())
+re_sub_f = z3.Function('re_sub', z3.StringSort(), z3.StringSort(),
+                       z3.StringSort(), z3.StringSort())
